@@ -128,6 +128,7 @@ package reflect
 //@     && t.FixedSize == typeToSize[t.T] && 0 <= t.Size && t.Size <= MAXELEM && isAlign(t.Align)
 //@     && t.SimpleType == simpleTypes[t.T]
 //@     && (t.IsPointer ==> t.Size == 8 && t.Align == 8 && t.MallocAbiType != 0)
+//@     && (t.T == tSTRUCT ==> t.MallocAbiType != 0)
 //@     && (t.IsPointer <==> t.Tag == defs.T_pointer)
 //@     && (t.T == tMAP ==> t.MapTmpVarsPool != nil && !t.IsPointer)
 //@     && ((t.T == tLIST || t.T == tSET) ==> !t.IsPointer)
@@ -138,7 +139,7 @@ package reflect
 //@ axiom wfTshape_V: forall t *tType :: {wfTshape(t), t.V} wfTshape(t) && (t.IsPointer || t.T == tMAP || t.T == tLIST || t.T == tSET) ==> t.V != nil && wfTshape(t.V)
 //@     && (!t.IsPointer && t.V.IsPointer ==> t.V.T == tSTRUCT)
 //@     && (t.IsPointer ==> !t.V.IsPointer && t.T == t.V.T && t.WT == t.V.WT && t.FixedSize == t.V.FixedSize && t.V.T != tMAP && t.V.T != tLIST && t.V.T != tSET)
-//@ axiom wfTshape_K: forall t *tType :: {wfTshape(t), t.K} wfTshape(t) && t.T == tMAP ==> t.K != nil && wfTshape(t.K) && (t.K.IsPointer ==> t.K.T == tSTRUCT) && t.K.Tag != defs.T_binary && t.K.T != tMAP && t.K.T != tLIST && t.K.T != tSET
+//@ axiom wfTshape_K: forall t *tType :: {wfTshape(t), t.K} wfTshape(t) && t.T == tMAP ==> t.K != nil && wfTshape(t.K) && (t.K.IsPointer <==> t.K.T == tSTRUCT) && t.K.Tag != defs.T_binary && t.K.T != tMAP && t.K.T != tLIST && t.K.T != tSET
 
 //@ axiom wfT_base: forall t *tType :: {wfT(t)} wfT(t) ==> wfTshape(t)
 //@     && (!t.SimpleType ==> t.AppendFunc != nil && t.EncodedSizeFunc != nil && implementsAppend(t))
@@ -279,6 +280,7 @@ package reflect
 //@   ensures gc: (n > defaultDecoderMemSize/8 || abiType != 0) ==> old($brk) <= ret && ret + n <= $brk && d.s.p == old(d.s.p) && d.s.b == old(d.s.b) && d.s.n == old(d.s.n)
 //@   ensures span: !(n > defaultDecoderMemSize/8 || abiType != 0) ==> ret % align == 0 && d.s.b <= ret && ret + n <= d.s.b + d.s.p
 //@       && (d.s.b == old(d.s.b) ==> old(d.s.b) + old(d.s.p) <= ret) && (d.s.b != old(d.s.b) ==> old($brk) <= d.s.b)
+//@   ensures c07_zero: abiType != 0 ==> forall a Int :: {M[a]} ret <= a && a < ret + n ==> M[a] == 0
 //@   ensures c06_aligned: ret % align == 0
 //@   ensures c06_owned: destOK(d, ret, n) && (old($brk) <= ret || (d.s.b == old(d.s.b) && old(d.s.b) + old(d.s.p) <= ret && ret + n <= d.s.b + d.s.p))
 //@   ensures c06_mono: $(spanmono)
@@ -405,6 +407,7 @@ package reflect
 //@   after mallocIfPointer ghost $mp = res_ret
 //@   call decodeFixedSizeTypes ghost dst = $mp
 //@   call decodeType ghost dst = $mp
+//@   call decodeType ghost fresh = false
 //@   call decodeStringNoCopy ghost dst = $mp
 //@   call decodeType ghost lvl = lvl + 1
 //@   call decodeType ghost wt = tp
@@ -460,7 +463,8 @@ package reflect
 
 //@ func (d *tDecoder) decodeType(t *tType, b []byte, p unsafe.Pointer, maxdepth int) (n int, err error)
 //@   requires d != nil && spanInv(&d.s) && wfT(t) && p != nil && 0 <= maxdepth && len(b) <= MAXIN
-//@   ghost lvl Int, wt Int, nc Bool, dst Int
+//@   ghost lvl Int, wt Int, nc Bool, dst Int, fresh Bool
+//@   requires c07_fresh: fresh && t.T == tSTRUCT && !t.IsPointer ==> forall a Int :: {M[a]} p <= a && a < p + slotSize(t) ==> M[a] == 0
 //@   requires c03_dest: dst != 0 ==> p == dst
 //@   requires c03_wt: t.WT == wt
 //@   requires c14_dispatch: !nc
@@ -486,6 +490,7 @@ package reflect
 //@   call decodeType ghost lvl = lvl + 1
 //@   call decodeType ghost nc = false
 //@   call decodeType ghost dst = 0
+//@   call decodeType ghost fresh = true
 //@   call decodeFixedSizeTypes ghost dst = 0
 //@   call decodeFixedSizeTypes ghost wt = 0
 //@   call decodeFixedSizeTypes#0 ghost td = t
@@ -529,6 +534,7 @@ package reflect
 //@   loop 1 invariant 0 <= j && j <= l && 5 <= i && i <= len(b) && spanInv(&d.s) && old($brk) <= $brk
 //@   loop 1 invariant p != nil && (et.IsPointer ==> sliceData != nil)
 //@   loop 1 invariant remaining: et.FixedSize > 0 ==> i + (l - j) * et.FixedSize <= len(b)
+//@   loop 1 invariant c07_rest: et.T == tSTRUCT && !et.IsPointer ==> forall a Int :: {M[a]} (j == 0 ? x : p + et.Size) <= a && a < x + l * et.Size ==> M[a] == 0
 //@   loop 1 decreases l - j
 
 // ---------------------------------------------------------------------------
